@@ -60,6 +60,14 @@ CLAIMS = {
         "functions, div_floor and the arithmetic of mod_positive are not decided (32-bit identities need a solver or evaluation); 'import == pasted text' beyond R1/R2 is not decided.",
    technique="CFG dominance + constant evaluation of the search path + order-type enumeration over Lark parse trees of lib/math.facto",
    ref="DESIGN.md §2 C17"),
+ "C09": dict(
+   text="Static analysis: def-use chain of the coordinates from place() arguments to IRPlaceEntity, placement and entity.position; every store into a position mapping returned by the "
+        "layout engine must be a solver value of the entity's own singleton-domain variables, the fixed table entry, or guarded by not-fixed; a unit typestate (tile until the conversion, "
+        "centre after) is checked for every centre-reader reachable (exact call graph) from the phases that run before the conversion; who-may-delete over all deletion sites of placements "
+        "(keys must derive from the pole flag, unused memory gates or the inlined decider id; a committed positive fixture keeps the matcher honest); static properties are copied except "
+        "bookkeeping keys. Emitted coordinates under solver outcomes are covered only through this structural argument; whether draftsman accepts a property is not decided.",
+   technique="def-use slices + guard-chain analysis + call-graph reachability with a unit typestate + who-may-delete table",
+   ref="DESIGN.md §2 C09"),
 }
 NA_DEFAULT = "check not built yet (build phase in progress); see DESIGN.md for the planned rules"
 NA = {}
